@@ -285,6 +285,21 @@ func buildOne(r *rng.R, slot int) *sharedObj {
 		return &sharedObj{special: "refused-text", kind: "text", text: texts[r.Intn(len(texts))]}
 	case 15:
 		return &sharedObj{special: "refused-calls", kind: "refused", item: ast.NewListNode("item", ast.NewUintNode(1, "b"))}
+	case 23:
+		// a complete message around a big item: its first encoding takes milliseconds, long enough for other goroutines to
+		// derive messages from it meanwhile
+		kids := make([]interface{}, 4000+r.Intn(500))
+		for i := range kids {
+			switch i % 3 {
+			case 0:
+				kids[i] = ast.NewUintNode(4, i)
+			case 1:
+				kids[i] = ast.NewASCIINode(fmt.Sprintf("value %d", i))
+			default:
+				kids[i] = ast.NewListNode(ast.NewFloatNode(8, float64(i)/3), ast.NewBooleanNode(i%2 == 0))
+			}
+		}
+		return &sharedObj{special: "big-message", kind: "data", data: ast.NewHSMSDataMessage("big", 6, 11, 1, "H<-E", ast.NewListNode(kids...), 77, []byte{0, 0, 7, 7}), fill: map[string]interface{}{}}
 	case 19, 20:
 		// texts whose size declarations carry blanks inside the brackets (legal, never printed): the lexer squeezes them
 		a := 200 + 7*slot
@@ -563,7 +578,7 @@ func runC17(c *ctx) {
 			hot = append(hot, pool[i])
 		}
 		// the hand-made objects are hot in every round (long-running calls, calls that must be refused, deep nests)
-		var big, deep *sharedObj
+		var big, deep, bigMsg *sharedObj
 		var long, floats []*sharedObj
 		for _, o := range pool {
 			switch o.special {
@@ -577,7 +592,10 @@ func runC17(c *ctx) {
 			if strings.HasPrefix(o.special, "floats-") {
 				floats = append(floats, o)
 			}
-			if strings.HasPrefix(o.special, "long-") || o.special == "deep-bytes" || o.special == "big-list" || strings.HasPrefix(o.special, "floats-") {
+			if o.special == "big-message" {
+				bigMsg = o
+			}
+			if strings.HasPrefix(o.special, "long-") || o.special == "deep-bytes" || o.special == "big-list" || o.special == "big-message" || strings.HasPrefix(o.special, "floats-") {
 				long = append(long, o) // expensive calls: each goroutine makes one now and then, so that a few are always in flight
 				continue
 			}
@@ -589,7 +607,7 @@ func runC17(c *ctx) {
 				hot = append(hot, o)
 			}
 		}
-		if big == nil || deep == nil || len(floats) != 2 {
+		if big == nil || deep == nil || bigMsg == nil || len(floats) != 2 {
 			c.Inconclusive("the hand-made shared objects were not built")
 			return
 		}
@@ -679,6 +697,17 @@ func runC17(c *ctx) {
 						lc.first[key] = got
 					} else if got != first && len(lc.varies) < 3 {
 						lc.varies = append(lc.varies, fmt.Sprintf("%s.%s returned %q and %q", o.kind, c17Ops[o.kind][oi], clipS(first), clipS(got)))
+					}
+				}
+				// the big message: its first encoding and the first derivations from it, by everybody at once, in either order
+				for rep := 0; rep < 2; rep++ {
+					first, second := 1, 7 // ToBytes, SetSession
+					if (gID+rep)%2 == 1 {
+						first, second = 7, 1
+					}
+					for _, k := range []int{first, second} {
+						t0 := int64(time.Since(t00))
+						note(bigMsg, k, doOp(bigMsg, c17Ops["data"][k], ""), t0)
 					}
 				}
 				// both long float arrays, alternately, by everybody at once
